@@ -516,6 +516,13 @@ struct runner
 			if (accs.count(s)) { accs[s].reset(); accs[s].reset(new tcps::acceptor(node(obj_node[s]))); }
 			else { socks[s].reset(); socks[s].reset(new tcps::socket(node(obj_node[s]))); socks[s]->non_blocking(true); }
 		}
+		else if (c == "tcp_move")
+		{
+			// move-construct the socket into a new object (the old one is destroyed)
+			long long s = arg(1);
+			std::unique_ptr<tcps::socket> n(new tcps::socket(std::move(*socks.at(s))));
+			socks[s] = std::move(n);
+		}
 		else if (c == "tcp_connect")
 		{
 			long long h = arg(5);
